@@ -196,7 +196,7 @@ def subchecks():
             name="spec-objects",
             run_case=run_spec_objects,
             strategy=lambda tier: gen.scenario(tier),
-            examples={"quick": 1500, "thorough": 25000},
+            examples={"quick": 1500, "thorough": 100000},
             case_timeout=20.0,
         ),
         SubCheck(
@@ -205,6 +205,6 @@ def subchecks():
             strategy=lambda tier: ruleforms.form_case(
                 tier, forms=["plain", "plain", "equiv", "equiv", "equiv-reverse", "equiv-reverse", "path", "path", "reverse"]
             ),
-            examples={"quick": 4000, "thorough": 80000},
+            examples={"quick": 4000, "thorough": 300000},
         ),
     ]
